@@ -67,3 +67,28 @@ for sid, text in needs2.items():
     if os.path.exists(f):
         m = json.load(open(f)); m["needs_to_manifest"] = text; json.dump(m, open(f, "w"), indent=1, ensure_ascii=False)
 print("ok2")
+needs3 = {
+ "C05d-1": "input shape: only the first declared production line of a system is counted (find instead of sum); needs >=2 PRODUCCION lines with the same id and carrier; also breaks idempotence",
+ "C05d-2": "input shape: only EPB-service uses are completed (is_epb_use for is_used); needs an EAMBIENTE/TERMOSOLAR CONSUMO with service NEPB or COGEN",
+ "C05d-3": "input shape: lines pass through a HashSet before classification; two textually identical lines (values and comment) are read once",
+ "C06d-1": "multi-step sequence: the total to share is taken only from AUX still marked NEPB while retain deletes every AUX of the system; a second normalize() (or JSON round trip + normalize) zeroes the auxiliaries of a multi-service system",
+ "C06d-2": "small values: per-service AUX components whose values are all < 0.005 ('would print as 0.00') are skipped; hourly series with a few watts, or a very lopsided split, lose energy",
+ "C06d-3": "input shape: the 'no output data' error was folded into the per-service loop; with no SALIDA line at all the AUX of a multi-service system is deleted silently instead of raising the error",
+ "C16d-1": "option value: AppSettings::StrictUtf8 removed; any -c/-f/-l/-a/-k/--red value that is not valid UTF-8 panics inside clap",
+ "C16d-2": "stored-data fault at a particular byte: error messages slice &line[..80]; an invalid line longer than 80 bytes with a multi-byte character straddling byte 80 panics (1 padding in 40)",
+ "C16d-3": "hash order + input shape: cached positions of AUX components go stale after retain/push of an earlier system; index out of bounds in ~55-60% of runs for a particular two-system file",
+ "C17d-1": "hash order + ill-conditioned magnitudes: 'Consumida en usos EPB' printed as the f32 sum of the by-service table in HashMap order; 16777216+1+1 prints ...16.00 or ...18.00 depending on the run",
+ "C17d-2": "input shape: copy-paste slip (\"REF\", &needs.CAL) in the XML demand elements; wrong or missing <Demanda> for REF / CAL-only demands while plain and JSON stay right",
+ "C17d-3": "I/O fault: BufWriter without flush; for outputs under 8 KiB the write happens in drop, which discards errors: --txt/--xml exit 0 under a write fault",
+ "C18d-1": "two-step sequence: normalize() discards components carrying the automatic comments before regenerating; the reassigned AUX lines of a saved file vanish on re-read",
+ "C18d-2": "unusual values: shared fast formatter prints integer hundredths and loses the sign of values in (-1, 0): -0.40 is written 0.40",
+ "C18d-3": "two-incarnation history: ELECTRICIDAD INSITU factor added unconditionally; the export loop then demands a grid electricity factor the saved simplified file of an all-gas building lacks",
+ "C10d-1": "hash order: exported energy by source pairs two independent HashMaps with zip; with EL_INSITU and EL_COGEN and some export the pairing is swapped in about half of the evaluations",
+ "C10d-2": "line order + thresholds: the DHW indicator's abs() < 0.01 tests became < f32::EPSILON; a few-ulp residue that depends on the order of >=3 AUX lines flips the biomass branch (96.7 % vs error)",
+ "C10d-3": "hash order + two sites: EPB-only count in the condition, unfiltered HashSet for the choice; one EPB service + COGEN/NEPB use puts AUX on COGEN in about half of the parses",
+}
+for sid, text in needs3.items():
+    f = "/verif/seeded/%s/meta.json" % sid
+    if os.path.exists(f):
+        m = json.load(open(f)); m["needs_to_manifest"] = text; json.dump(m, open(f, "w"), indent=1, ensure_ascii=False)
+print("ok3")
